@@ -9,6 +9,8 @@ import (
 	"time"
 )
 
+
+
 // TestDev is a development aid: VERIF_DEV="C01:500[:base]" runs that many
 // seeds in-process and prints a summary.
 func TestDev(t *testing.T) {
@@ -24,6 +26,17 @@ func TestDev(t *testing.T) {
 		base = uint64(b)
 	}
 	ws := &WorkerSpec{Prop: parts[0], Mode: "explore", Tier: "quick", BaseSeed: base, Stride: 1, MaxRuns: uint64(n), ReplayDir: os.Getenv("VERIF_DEV_REPLAYS")}
+	if v := os.Getenv("VERIF_DEV_START"); v != "" {
+		x, _ := strconv.Atoi(v)
+		ws.Start = uint64(x)
+	}
+	if v := os.Getenv("VERIF_DEV_STRIDE"); v != "" {
+		x, _ := strconv.Atoi(v)
+		ws.Stride = uint64(x)
+	}
+	if os.Getenv("VERIF_DEV_VERBOSE") != "" {
+		devVerbose = true
+	}
 	start := time.Now()
 	out := RunWorker(t, ws)
 	fmt.Printf("runs=%d enumerated=%d/%d nontrivial=%d distinct=%d steps=%d sim=%v wall=%v selfcheck=%v\n", out.Runs, out.Enumerated, out.EnumTotal, out.NonTrivial, len(out.NTDigests), out.Steps, time.Duration(out.SimNanos), time.Since(start), out.SelfCheck)
